@@ -801,7 +801,9 @@ def unflatten(self, axis=None):
 
     newshape = self.shape[:axis] + tuple(ax.size for ax in group.axes) + self.shape[axis+1:]
     newvalues = self.values.reshape(newshape)
-    newaxes = self.axes[:axis] + group.axes + self.axes[axis+1:]
+    # (copies of the member axes: the grouped axis caches its name and tuple labels, which would go
+    # stale if its members were edited through the returned array)
+    newaxes = self.axes[:axis] + [ax.copy() for ax in group.axes] + self.axes[axis+1:]
 
     return self._constructor(newvalues, newaxes, **self.attrs)
 
